@@ -22,11 +22,22 @@ def main():
     seed = int(os.environ.get("VERIF_SEED", "0") or 0)
     rep = lib.Report(pid, tier, seed)
 
+    mod = importlib.import_module(pid.lower())
+    # optional hook: a property module may regenerate Coq sources (coq/Gen/*.v) from the tree under test
+    # BEFORE the build; it returns None or a description of why the translator failed (fail-closed)
+    pregen_err = None
+    if hasattr(mod, "pregen"):
+        try:
+            pregen_err = mod.pregen()
+        except Exception:  # noqa: BLE001
+            pregen_err = "pregen crashed: " + traceback.format_exc()[-1500:]
     ok, log = coqaudit.build()
     proof = coqaudit.audit(pid) if ok else {
         "obligations": 1, "discharged": 0, "theorems": [], "axioms": [],
         "broken": ["build failed: " + log[-1500:]], "checker_cmd": "/verif/build.sh", "trusted_base": coqaudit.TRUSTED_BASE}
-    mod = importlib.import_module(pid.lower())
+    if pregen_err:
+        proof["broken"].insert(0, "translator: " + pregen_err)
+        proof["discharged"] = min(proof["discharged"], max(0, proof["obligations"] - 1))
     model = None
     try:
         if ok:
@@ -47,7 +58,7 @@ def main():
     if proof["broken"] and not rep.violations:
         rep.violation({"proof": proof["broken"]}, {"theorems": proof["theorems"], "note":
                       "a proof obligation / the build no longer checks; the numeric search found no failing input"},
-                      kind="proof-obligation")
+                      kind="translator" if pregen_err else "proof-obligation")
     rc = rep.finish(proof, getattr(mod, "RULE", ""), extra=getattr(mod, "EXTRA", None),
                     assumptions=getattr(mod, "ASSUMPTIONS", []))
     sys.exit(rc)
